@@ -104,3 +104,5 @@ impl Decimal {
     #[verifier::external_body]
     pub fn from(v: u64) -> (r: Decimal) ensures r@ == v as real { unimplemented!() }
 }
+
+pub proof fn lemma_div_mul(a: real, b: real) by(nonlinear_arith) requires b != 0real ensures (a / b) * b == a {}
